@@ -201,6 +201,14 @@ def check(prop, tier, seed):
         for lab in labs:
             if lab.split('.')[0] == prop:
                 obligations.append((fkey, lab))
+    if prop == 'C03':
+        # totality: EVERY extracted function whose body is verified carries the implicit obligations
+        # "no panic (expect/unwrap/index/slice preconditions), no arithmetic overflow, every loop terminates"
+        cfg = json.load(open(os.path.join(D.VERIF, 'contracts', 'extract.json')))
+        dropped = set(re.sub(r'\s+', '', b) for b in cfg['drop_bodies'])
+        for (ln, nm, key, src) in gi.fn_at:
+            if key and src and re.sub(r'\s+', '', key) not in dropped and not gi.module_of(ln).startswith('sp'):
+                obligations.append((key, 'C03.%s.total' % key))
     obligations = sorted(set(obligations))
     if not obligations:
         undecided('no obligation labelled %s found in the generated text' % prop)
@@ -250,6 +258,25 @@ def check(prop, tier, seed):
     code_ok = [n for n, d in bd.items() if d.get('success') and str(d.get('module', '')).startswith('code')]
     smt_s = sum((d.get('time_ms') or 0) for d in bd.values()) / 1000.0
 
+    # ---- Kani side pipeline (leaf functions only)
+    import vpkani
+    kani = []
+    if prop in vpkani.HARNESSES:
+        kf = os.path.join(cdir, 'kani_%s.json' % prop)
+        if os.path.exists(kf):
+            kani = json.load(open(kf))
+        else:
+            kani = vpkani.run(prop)
+            json.dump(kani, open(kf, 'w'))
+        und = [k for k in kani if k['status'] == 'undecided']
+        if und:
+            undecided('Kani harness undecided: ' + '; '.join('%s: %s' % (k['harness'], k['detail'][-200:]) for k in und))
+        for k in kani:
+            if k['status'] == 'fail':
+                violations.append({'kind': 'semantic', 'message': 'Kani FAILURE: ' + k['detail'][:300], 'fn': 'NodeId::parse' if 'parse' in k['harness'] else k['harness'],
+                                   'src': 'src/node_id.rs', 'module': 'code::node_id', 'line': None, 'clause_line': None, 'clause': k['what'],
+                                   'labels': ['%s.kani.%s' % (prop, k['harness'].split('::')[-1])], 'rendered': k['detail'], 'ext': [], 'kani': k})
+
     findings = [k for k in load_findings() if k['property'] == prop]
     known_labels = set(k['obligation'] for k in findings)
     new_violations = []
@@ -278,8 +305,8 @@ def check(prop, tier, seed):
                         'verdict': 'discharged' if (fk, lab) in discharged else 'FAILED', 'solver_ms': fnd.get('time_ms'), 'rlimit_used': fnd.get('rlimit')})
 
     cov = {
-        'obligations': len(obligations) + len(lib_ok) + 1,
-        'discharged': len(discharged) + len(lib_ok) + 1,
+        'obligations': len(obligations) + len(lib_ok) + 1 + len(kani),
+        'discharged': len(discharged) + len(lib_ok) + 1 + len([k for k in kani if k['status'] == 'ok']),
         'checker_cmd': run0['cmd'],
         'trusted_base': trusted,
         'samples': samples,
@@ -295,7 +322,8 @@ def check(prop, tier, seed):
         'normalisation_rules_applied': sum(len(x['rules']) for x in res['extract_log'].get('rules', [])),
         'dropped_from_extraction': res['extract_log'].get('dropped', []),
         'shared_run_cached': bool(res.get('cached')),
-        'bounded': [],
+        'bounded': ['Kani harness %s: %s' % (k['harness'], k['what']) for k in kani if 'parse' in k['harness']],
+        'kani': [{'harness': k['harness'], 'status': k['status'], 'checks': k.get('checks'), 'wall_s': round(k['wall_s'], 1), 'cmd': k['cmd'], 'what': k['what']} for k in kani],
         'explanation': 'Every clause labelled [%s.*] in /verif/contracts is injected into the text extracted from /repo/src on this run; '
                        'the property holds iff Verus discharges every such clause, every supporting lemma, and the vacuity probe fails.' % prop,
     }
@@ -319,9 +347,11 @@ def check(prop, tier, seed):
             json.dump({'property': prop, 'failed_obligation': lab, 'all_labels': mine, 'function': v['fn'], 'source': v['src'],
                        'verifier_message': v['message'], 'clause': v['clause'], 'verifier_output': v['rendered'],
                        'checker_cmd': run0['cmd'], 'generated_file': res['gen_path'],
-                       'failing_input': None, 'note': 'no-failing-input-found: Verus gives no model; the named obligation was discharged on the unchanged tree and fails on this tree'},
+                       'failing_input': (v.get('kani') or {}).get('counterexample'),
+                       'note': 'Kani counterexample attached' if (v.get('kani') or {}).get('counterexample') else 'no-failing-input-found: Verus gives no model; the named obligation was discharged on the unchanged tree and fails on this tree'},
                       open(rp, 'w'), indent=1)
-            print('VIOLATION property=%s replay=%s obligation=%s function=%s (%s) no-failing-input-found' % (prop, rp, lab, v['fn'], v['message'][:60]))
+            tail = '' if (v.get('kani') or {}).get('counterexample') else ' no-failing-input-found'
+            print('VIOLATION property=%s replay=%s obligation=%s function=%s (%s)%s' % (prop, rp, lab, v['fn'], v['message'][:60], tail))
         sys.exit(1)
 
     write_ev(ev)
